@@ -708,6 +708,48 @@ def run_property(prop, tier, seed, only=None):
         'wall_s': round(wall, 2),
         'violations': len(fresh),
     }
+    # iteration order of sets / dicts keyed by strings is a source of nondeterminism inside the library which the explorer
+    # does not own within one interpreter: properties that declare it are explored again under further hash seeds
+    extra_hs = [] if (only or os.environ.get('MCV_SUBRUN')) else list(getattr(mod, 'EXTRA_HASH_SEEDS', {}).get(tier, ()))
+    own_hs = os.environ.get('PYTHONHASHSEED', '0')
+    subruns = []
+    for hs in extra_hs:
+        if str(hs) == own_hs:
+            continue
+        import tempfile
+        import shutil
+        tmp = tempfile.mkdtemp(prefix='mcv_hs_')
+        env = dict(os.environ)
+        env.update({'PYTHONHASHSEED': str(hs), 'MCV_SUBRUN': '1', 'MCV_EVIDENCE_DIR': tmp})
+        p = subprocess.run([sys.executable, '-m', 'mcv.core', prop, tier], cwd=VERIF_DIR, env=env,
+                           stdout=subprocess.PIPE, stderr=subprocess.PIPE, universal_newlines=True)
+        sub = {'pythonhashseed': str(hs), 'rc': p.returncode}
+        try:
+            with open(os.path.join(tmp, prop + '.json')) as f:
+                sev = json.load(f)
+            sub.update({k: sev['coverage'][k] for k in ('evaluations', 'states', 'transitions', 'traces_validated_against_impl',
+                                                        'exhaustive', 'distinct_outcomes')})
+            sub['violations'] = sev['violations']
+        except Exception as e:
+            sub['evidence_error'] = repr(e)
+        shutil.rmtree(tmp, ignore_errors=True)
+        if p.returncode not in (0, 1):
+            sys.stderr.write(p.stderr[-3000:])
+            raise HarnessError('sub-run of %s %s under PYTHONHASHSEED=%s failed (rc=%s)' % (prop, tier, hs, p.returncode))
+        for line in p.stdout.splitlines():
+            if line.startswith('VIOLATION ') or line.startswith('  ') and 'sig=' in line:
+                print(line + ('' if not line.startswith('VIOLATION ') else '   [found under PYTHONHASHSEED=%s]' % hs))
+        if p.returncode == 1:
+            rc = 1
+            ev['violations'] += sub.get('violations', 1)
+        subruns.append(sub)
+    if subruns:
+        ev['coverage']['hash_seed_runs'] = [{'pythonhashseed': own_hs, 'this_run': True}] + subruns
+        for sub in subruns:
+            for k_ev, k_sub in (('states', 'states'), ('transitions', 'transitions'),
+                                ('traces_validated_against_impl', 'traces_validated_against_impl'), ('evaluations', 'evaluations')):
+                ev['coverage'][k_ev] += int(sub.get(k_sub, 0) or 0)
+            ev['coverage']['exhaustive'] = bool(ev['coverage']['exhaustive'] and sub.get('exhaustive', False))
     evdir = os.environ.get('MCV_EVIDENCE_DIR') or os.path.join(VERIF_DIR, 'evidence')
     os.makedirs(evdir, exist_ok=True)
     evpath = os.path.join(evdir, prop + '.json')
@@ -724,6 +766,9 @@ def run_property(prop, tier, seed, only=None):
         print('   %-28s %9d cases %9d nontrivial %4d outcomes  %s'
               % (name, c['evaluations'], c['distinct_nontrivial'], c['distinct_outcomes'],
                  '' if c['exhaustive'] else 'CAPPED: %s' % c['cap']))
+    for sub in subruns:
+        print('   + the same exploration under PYTHONHASHSEED=%s: %s cases, %s violation(s)'
+              % (sub['pythonhashseed'], sub.get('evaluations'), sub.get('violations')))
     return rc
 
 
